@@ -1,5 +1,4 @@
 import Idl.Ast
-import Idl.Generated.Rules
 /-!
 # Model of `/repo/star_frame_idl/src/verifier/mod.rs`, function by function
 
@@ -20,39 +19,25 @@ def Rule.all : List Rule :=
    .missingAccountSet, .accountSetTypeArity, .accountSetAccountArity, .missingAccount,
    .manyBounds, .emptyOr]
 
-/-- The Rust constant each constructor stands for. -/
-def Rule.constName : Rule → String
-  | .emptyNamespace => "RULE_EMPTY_NAMESPACE"
-  | .duplicateNamespace => "RULE_DUPLICATE_NAMESPACE"
-  | .missingNamespace => "RULE_MISSING_NAMESPACE"
-  | .missingType => "RULE_MISSING_TYPE"
-  | .typeGenericArity => "RULE_TYPE_GENERIC_ARITY"
-  | .missingAccountSet => "RULE_MISSING_ACCOUNT_SET"
-  | .accountSetTypeArity => "RULE_ACCOUNT_SET_TYPE_ARITY"
-  | .accountSetAccountArity => "RULE_ACCOUNT_SET_ACCOUNT_ARITY"
-  | .missingAccount => "RULE_MISSING_ACCOUNT"
-  | .manyBounds => "RULE_MANY_BOUNDS"
-  | .emptyOr => "RULE_EMPTY_OR"
-
-/-- What the rule means, in the words of `docs/IDL_VERIFIER_SCOPE.md` (section "Rule IDs"). -/
-def Rule.docText : Rule → String
-  | .emptyNamespace => "empty namespace"
-  | .duplicateNamespace => "duplicate namespace"
-  | .missingNamespace => "missing namespace reference"
-  | .missingType => "missing type"
-  | .typeGenericArity => "type generic arity mismatch"
-  | .missingAccountSet => "missing account set"
-  | .accountSetTypeArity => "account-set type generic arity mismatch"
-  | .accountSetAccountArity => "account-set account generic arity mismatch"
-  | .missingAccount => "missing account"
-  | .manyBounds => "invalid Many bounds"
-  | .emptyOr => "empty Or"
-
-/-- The rule id string (`SFIDLnnn`) the constant has in the source (table regenerated every run). -/
-def Rule.id (r : Rule) : String :=
-  match Generated.ruleConsts.lookup r.constName with
-  | some s => s
-  | none => "?"
+/-- The rule id each constructor stands for, with its documented meaning
+(`docs/IDL_VERIFIER_SCOPE.md`, "Rule IDs"): SFIDL001 empty namespace, 002 duplicate namespace,
+003 missing namespace reference, 004 missing type, 005 type generic arity mismatch, 006 missing
+account set, 007 account-set type generic arity mismatch, 008 account-set account generic arity
+mismatch, 009 missing account, 010 invalid `Many` bounds, 011 empty `Or`.
+The id VALUES are compared with the source in `Props/C18.lean`; which id the code emits in which
+situation is established by the correspondence run. -/
+def Rule.id : Rule → String
+  | .emptyNamespace => "SFIDL001"
+  | .duplicateNamespace => "SFIDL002"
+  | .missingNamespace => "SFIDL003"
+  | .missingType => "SFIDL004"
+  | .typeGenericArity => "SFIDL005"
+  | .missingAccountSet => "SFIDL006"
+  | .accountSetTypeArity => "SFIDL007"
+  | .accountSetAccountArity => "SFIDL008"
+  | .missingAccount => "SFIDL009"
+  | .manyBounds => "SFIDL010"
+  | .emptyOr => "SFIDL011"
 
 /-- `a?; b` -/
 @[macro_inline] def seqE (a b : Except Rule Unit) : Except Rule Unit :=
